@@ -115,22 +115,78 @@ func registerExternals(m *Machine) {
 		return strconv.Quote(m.concretizeStr(a[0]))
 	}
 	e["strconv.FormatFloat"] = func(m *Machine, fr *frame, a []value) value {
-		if isSym(a[0]) {
-			m.Stubs["concretized:strconv.FormatFloat"]++
+		fmtc, prec, bits := byte(bitsOf(m.concretize(a[1]))), int(asInt(m.concretize(a[2]))), int(asInt(m.concretize(a[3])))
+		sv, isS := a[0].(*symv)
+		if !isS {
+			return strconv.FormatFloat(a[0].(float64), fmtc, prec, bits)
 		}
-		f := m.concretize(a[0]).(float64)
-		return strconv.FormatFloat(f, byte(bitsOf(m.concretize(a[1]))), int(asInt(m.concretize(a[2]))), int(asInt(m.concretize(a[3]))))
+		// shortest-digit generation is not encoded: the text of a symbolic double is an
+		// arbitrary short string over the number alphabet (same double, same text)
+		m.Stubs["havoc:strconv.FormatFloat"]++
+		key := fmt.Sprintf("ff:%d", sv.t.ID)
+		memo, _ := m.Scratch["ffMemo"].(map[string]value)
+		if memo == nil {
+			memo = map[string]value{}
+			m.Scratch["ffMemo"] = memo
+		}
+		if r, ok := memo[key]; ok {
+			return r
+		}
+		n, _ := m.Scratch["havocN"].(int)
+		m.Scratch["havocN"] = n + 1
+		r := m.inputStr(fmt.Sprintf("havoc#FormatFloat#%d", n), 2, "set:0123456789.-+eNaIf")
+		memo[key] = r
+		return r
 	}
 	e["strconv.ParseFloat"] = func(m *Machine, fr *frame, a []value) value {
-		if isSym(a[0]) {
-			m.Stubs["concretized:strconv.ParseFloat"]++
+		ss, isS := a[0].(*symstr)
+		if !isS {
+			f, err := strconv.ParseFloat(a[0].(string), int(asInt(m.concretize(a[1]))))
+			if err != nil {
+				return tuple{f, m.hostError(fr, "strconv", "*strconv.NumError", err.Error())}
+			}
+			return tuple{f, iface{}}
 		}
-		s := m.concretizeStr(a[0])
-		f, err := strconv.ParseFloat(s, int(asInt(m.concretize(a[1]))))
-		if err != nil {
-			return tuple{f, m.hostError(fr, "strconv", "*strconv.NumError", err.Error())}
+		// symbolic bytes: the digit algorithms are not encoded. The result is an
+		// unconstrained (value, ok) pair of the environment, the same for the same bytes.
+		m.Stubs["havoc:strconv.ParseFloat"]++
+		key := fmt.Sprintf("pf:%d", len(ss.s))
+		for i, t := range ss.b {
+			if t != nil {
+				key += fmt.Sprintf(":t%d", t.ID)
+			} else {
+				key += fmt.Sprintf(":c%d", ss.s[i])
+			}
 		}
-		return tuple{f, iface{}}
+		memo, _ := m.Scratch["pfMemo"].(map[string]tuple)
+		if memo == nil {
+			memo = map[string]tuple{}
+			m.Scratch["pfMemo"] = memo
+		}
+		if r, ok := memo[key]; ok {
+			return r
+		}
+		nf, nerr := strconv.ParseFloat(ss.s, 64)
+		n, _ := m.Scratch["havocN"].(int)
+		m.Scratch["havocN"] = n + 1
+		okName := fmt.Sprintf("havoc#ParseFloat.ok#%d", n)
+		okv := m.Ctx.Var(okName, sym.Bool)
+		okc := nerr == nil
+		if mv, have := m.Model[okName]; have {
+			okc = mv.B()
+		} else {
+			m.Model[okName] = sym.BoolVal(okc)
+		}
+		fv := m.havocFloat("ParseFloat", nf)
+		if !m.truth(&symv{c: okc, t: okv}, "ParseFloat-ok") {
+			errv := m.hostError(fr, "strconv", "*strconv.NumError", "strconv.ParseFloat: parsing "+strconv.Quote(ss.s)+": invalid syntax")
+			r := tuple{float64(0), errv}
+			memo[key] = r
+			return r
+		}
+		r := tuple{value(fv), value(iface{})}
+		memo[key] = r
+		return r
 	}
 	e["strconv.Atoi"] = func(m *Machine, fr *frame, a []value) value {
 		s := m.concretizeStr(a[0])
@@ -268,6 +324,14 @@ func registerExternals(m *Machine) {
 		}
 		return out
 	})
+	e["strings.IndexByte"] = strFn("strings.IndexByte", "", func(a []value) value { return int64(strings.IndexByte(a[0].(string), byte(bitsOf(a[1])))) })
+	e["strings.LastIndex"] = strFn("strings.LastIndex", "", func(a []value) value { return int64(strings.LastIndex(a[0].(string), a[1].(string))) })
+	e["strings.TrimLeft"] = strFn("strings.TrimLeft", "", func(a []value) value { return strings.TrimLeft(a[0].(string), a[1].(string)) })
+	e["strings.TrimRight"] = strFn("strings.TrimRight", "", func(a []value) value { return strings.TrimRight(a[0].(string), a[1].(string)) })
+	e["strings.Trim"] = strFn("strings.Trim", "", func(a []value) value { return strings.Trim(a[0].(string), a[1].(string)) })
+	e["strings.TrimPrefix"] = strFn("strings.TrimPrefix", "", func(a []value) value { return strings.TrimPrefix(a[0].(string), a[1].(string)) })
+	e["strings.TrimSuffix"] = strFn("strings.TrimSuffix", "", func(a []value) value { return strings.TrimSuffix(a[0].(string), a[1].(string)) })
+	e["strings.Count"] = strFn("strings.Count", "", func(a []value) value { return int64(strings.Count(a[0].(string), a[1].(string))) })
 	e["strings.EqualFold"] = strFn("strings.EqualFold", "", func(a []value) value { return strings.EqualFold(a[0].(string), a[1].(string)) })
 	// strings.NewReplacer(oldnew...).Replace(s): kept as an opaque pair list
 	e["strings.NewReplacer"] = func(m *Machine, fr *frame, a []value) value {
@@ -544,53 +608,155 @@ func registerExternals(m *Machine) {
 		return bitsOf(*p)
 	}
 
-	// ---- regexp (opaque host objects) ----
+	// ---- regexp: host objects on concrete operands, uninterpreted (havoc, memoised) on symbolic ones ----
+	strKey := func(v value) string {
+		switch v := v.(type) {
+		case string:
+			return "c:" + v
+		case *symstr:
+			k := fmt.Sprintf("s%d", len(v.s))
+			for i, t := range v.b {
+				if t != nil {
+					k += fmt.Sprintf(":t%d", t.ID)
+				} else {
+					k += fmt.Sprintf(":c%d", v.s[i])
+				}
+			}
+			return k
+		}
+		return "?"
+	}
+	type symRe struct {
+		key string
+		re  *regexp.Regexp // nil when the pattern is symbolic
+	}
+	memoOf := func(m *Machine) map[string]value {
+		mm, _ := m.Scratch["reMemo"].(map[string]value)
+		if mm == nil {
+			mm = map[string]value{}
+			m.Scratch["reMemo"] = mm
+		}
+		return mm
+	}
+	havocBool := func(m *Machine, tag string, def bool) value {
+		n, _ := m.Scratch["havocN"].(int)
+		m.Scratch["havocN"] = n + 1
+		name := fmt.Sprintf("havoc#%s#%d", tag, n)
+		v := m.Ctx.Var(name, sym.Bool)
+		c := def
+		if mv, ok := m.Model[name]; ok {
+			c = mv.B()
+		} else {
+			m.Model[name] = sym.BoolVal(c)
+		}
+		return &symv{c: c, t: v}
+	}
 	e["regexp.Compile"] = func(m *Machine, fr *frame, a []value) value {
 		if h, ok := m.Scratch["regexpCompileHook"].(func(m *Machine, fr *frame, pat value) value); ok {
 			return h(m, fr, a[0])
 		}
-		re, err := regexp.Compile(m.concretizeStr(a[0]))
-		if err != nil {
-			return tuple{(*value)(nil), m.hostError(fr, "regexp", "*syntax.Error", err.Error())}
+		key := "compile:" + strKey(a[0])
+		memo := memoOf(m)
+		if r, ok := memo[key]; ok {
+			return r
 		}
-		var cell value = &native{v: re}
-		return tuple{&cell, iface{}}
+		var r value
+		if ss, isS := a[0].(*symstr); isS {
+			m.Stubs["havoc:regexp.Compile"]++
+			_, nerr := regexp.Compile(ss.s)
+			if m.truth(havocBool(m, "regexp.Compile.ok", nerr == nil), "regexp-compile-ok") {
+				var cell value = &native{v: &symRe{key: key}}
+				r = tuple{&cell, iface{}}
+			} else {
+				r = tuple{(*value)(nil), m.hostError(fr, "regexp", "*syntax.Error", "error parsing regexp")}
+			}
+		} else {
+			re, err := regexp.Compile(a[0].(string))
+			if err != nil {
+				r = tuple{(*value)(nil), m.hostError(fr, "regexp", "*syntax.Error", err.Error())}
+			} else {
+				var cell value = &native{v: &symRe{key: key, re: re}}
+				r = tuple{&cell, iface{}}
+			}
+		}
+		memo[key] = r
+		return r
 	}
 	e["regexp.MustCompile"] = func(m *Machine, fr *frame, a []value) value {
 		re, err := regexp.Compile(m.concretizeStr(a[0]))
 		if err != nil {
 			panic(&targetPanic{v: iface{t: types.Typ[types.String], v: err.Error()}, site: m.where(), origin: "regexp"})
 		}
-		var cell value = &native{v: re}
+		var cell value = &native{v: &symRe{key: "compile:c:" + re.String(), re: re}}
 		return &cell
 	}
-	hostRe := func(m *Machine, p value) *regexp.Regexp {
+	hostRe := func(m *Machine, p value) *symRe {
 		pp := p.(*value)
 		if pp == nil {
 			m.fault("nil pointer dereference (*regexp.Regexp)")
 		}
-		return (*pp).(*native).v.(*regexp.Regexp)
+		return (*pp).(*native).v.(*symRe)
 	}
 	e["(*regexp.Regexp).MatchString"] = func(m *Machine, fr *frame, a []value) value {
-		if h, ok := m.Scratch["regexpMatchHook"].(func(m *Machine, re value, s value) value); ok {
-			return h(m, a[0], a[1])
+		re := hostRe(m, a[0])
+		if re.re != nil && !isSym(a[1]) {
+			return re.re.MatchString(a[1].(string))
 		}
-		return hostRe(m, a[0]).MatchString(m.concretizeStr(a[1]))
-	}
-	e["(*regexp.Regexp).ReplaceAllString"] = func(m *Machine, fr *frame, a []value) value {
-		if h, ok := m.Scratch["regexpReplaceHook"].(func(m *Machine, re, s, r value) value); ok {
-			return h(m, a[0], a[1], a[2])
+		key := "match:" + re.key + "|" + strKey(a[1])
+		memo := memoOf(m)
+		if r, ok := memo[key]; ok {
+			return r
 		}
-		return hostRe(m, a[0]).ReplaceAllString(m.concretizeStr(a[1]), m.concretizeStr(a[2]))
+		m.Stubs["havoc:regexp.MatchString"]++
+		def := false
+		if re.re != nil {
+			def = re.re.MatchString(concStr(a[1]))
+		}
+		r := havocBool(m, "regexp.MatchString", def)
+		memo[key] = r
+		return r
 	}
 	e["(*regexp.Regexp).NumSubexp"] = func(m *Machine, fr *frame, a []value) value {
-		if h, ok := m.Scratch["regexpNumSubexpHook"].(func(m *Machine, re value) value); ok {
-			return h(m, a[0])
+		re := hostRe(m, a[0])
+		if re.re != nil {
+			return int64(re.re.NumSubexp())
 		}
-		return int64(hostRe(m, a[0]).NumSubexp())
+		key := "nsub:" + re.key
+		memo := memoOf(m)
+		if r, ok := memo[key]; ok {
+			return r
+		}
+		n, _ := m.Scratch["havocN"].(int)
+		m.Scratch["havocN"] = n + 1
+		m.Stubs["havoc:regexp.NumSubexp"]++
+		r := m.inputInt(fmt.Sprintf("havoc#NumSubexp#%d", n), 0, 2)
+		memo[key] = r
+		return r
+	}
+	e["(*regexp.Regexp).ReplaceAllString"] = func(m *Machine, fr *frame, a []value) value {
+		re := hostRe(m, a[0])
+		if re.re != nil && !isSym(a[1]) && !isSym(a[2]) {
+			return re.re.ReplaceAllString(a[1].(string), a[2].(string))
+		}
+		key := "repl:" + re.key + "|" + strKey(a[1]) + "|" + strKey(a[2])
+		memo := memoOf(m)
+		if r, ok := memo[key]; ok {
+			return r
+		}
+		m.Stubs["havoc:regexp.ReplaceAllString"]++
+		n, _ := m.Scratch["havocN"].(int)
+		m.Scratch["havocN"] = n + 1
+		r := m.inputStr(fmt.Sprintf("havoc#ReplaceAll#%d", n), 2, "xmlascii")
+		memo[key] = r
+		m.Scratch["lastReplace"] = []value{a[0], a[1], a[2], r}
+		return r
 	}
 	e["(*regexp.Regexp).String"] = func(m *Machine, fr *frame, a []value) value {
-		return hostRe(m, a[0]).String()
+		re := hostRe(m, a[0])
+		if re.re != nil {
+			return re.re.String()
+		}
+		return "<symbolic pattern>"
 	}
 }
 
